@@ -265,7 +265,9 @@ structure VListener where
 deriving DecidableEq, Repr
 
 structure View where
-  clusters : List Nat
+  /-- (cluster id, routing knobs): AddCluster is an upsert, the newest configuration
+      replaces the previous one. Knobs: bit 0 `https_redirect`, bit 1 `sticky_session`. -/
+  clusters : List (Nat × Nat)
   httpFronts : List Front
   httpsFronts : List Front
   /-- (cluster, address) -/
@@ -287,7 +289,7 @@ inductive Op
   | plain (k : Kind) (ok : Bool)
   /-- `tplValid = false`: the cluster carries a custom answer template that does
       not parse (the HTTP and HTTPS proxies compile it for each of their listeners) -/
-  | addCluster (c : Nat) (hcValid : Bool) (tplValid : Bool)
+  | addCluster (c : Nat) (hcValid : Bool) (tplValid : Bool) (knobs : Nat)
   | removeCluster (c : Nat)
   | addBackend (c b a : Nat)
   | removeBackend (c b a : Nat)
@@ -347,6 +349,8 @@ def Op.kind : Op → Kind
 
 def frontKeyEq (f g : Front) : Bool := f.addr == g.addr && f.key == g.key
 
+def hasCluster (v : View) (c : Nat) : Bool := v.clusters.any (·.1 == c)
+
 def hasListener (v : View) (t : LType) (a : Nat) : Bool :=
   v.listeners.any fun l => l.ty == t && l.addr == a
 
@@ -361,13 +365,14 @@ def dispatchView (v : View) (op : Op) : View × Bool :=
   | .plain k _ => (v, Consts.wkDispatchPassthrough.contains k.nameBytes)
   | .queryCerts .. => (v, true)
   | .queryCluster _ => (v, true)
-  | .addCluster c hcValid _ =>
-    if hcValid then ({ v with clusters := c :: v.clusters.filter (· ≠ c) }, true) else (v, false)
-  | .removeCluster c =>
-    if v.clusters.contains c then ({ v with clusters := v.clusters.filter (· ≠ c) }, true)
+  | .addCluster c hcValid _ knobs =>
+    if hcValid then ({ v with clusters := (c, knobs) :: v.clusters.filter (·.1 ≠ c) }, true)
     else (v, false)
-  | .setHealthCheck c valid => (v, valid && v.clusters.contains c)
-  | .removeHealthCheck c => (v, v.clusters.contains c)
+  | .removeCluster c =>
+    if hasCluster v c then ({ v with clusters := v.clusters.filter (·.1 ≠ c) }, true)
+    else (v, false)
+  | .setHealthCheck c valid => (v, valid && hasCluster v c)
+  | .removeHealthCheck c => (v, hasCluster v c)
   | .addBackend c b a =>
     ({ v with backends := (c, b, a) :: v.backends.filter (· ≠ (c, b, a)) }, true)
   | .removeBackend c b a =>
@@ -447,6 +452,9 @@ structure WState where
       unspecified entry when an address was added twice: the model takes the
       newest and the harness does not aim at such an address again -/
   listeners : List PListener
+  /-- `HttpProxy::clusters`: the cluster configurations the plain-HTTP proxy routes
+      with (id, knobs); an AddCluster the proxy refuses does not reach it -/
+  httpClusters : List (Nat × Nat)
   /-- slab keys holding a `ListenSession` placeholder -/
   slab : List Nat
   /-- the slab's free list (last freed first) -/
@@ -461,7 +469,7 @@ structure WState where
   stopped : Bool
 deriving DecidableEq, Repr
 
-def WState.init : WState := ⟨View.empty, [], [], [], 3, 0, false⟩
+def WState.init : WState := ⟨View.empty, [], [], [], [], 3, 0, false⟩
 
 def findL (s : WState) (t : LType) (a : Nat) : Option PListener :=
   s.listeners.find? fun l => l.ty == t && l.addr == a
@@ -513,6 +521,8 @@ def unsupported : ProxyResults := ⟨.failure, .failure, .failure, .failure⟩
 /-- `ClusterInformation` (keys only) -/
 structure ClusterInfo where
   known : Bool
+  /-- `configuration`: the routing knobs of the newest AddCluster -/
+  knobs : Nat
   http : List Front
   https : List Front
   tcp : List Nat
@@ -531,11 +541,12 @@ deriving DecidableEq, Repr
 
 /-- `cluster_state` -/
 def clusterInfo (v : View) (c : Nat) : ClusterInfo :=
-  if v.clusters.contains c then
-    ⟨true, v.httpFronts.filter (·.cluster == c), v.httpsFronts.filter (·.cluster == c),
+  match v.clusters.find? (·.1 == c) with
+  | some cfg =>
+    ⟨true, cfg.2, v.httpFronts.filter (·.cluster == c), v.httpsFronts.filter (·.cluster == c),
      (v.tcpFronts.filter (·.1 == c)).map (·.2), (v.udpFronts.filter (·.1 == c)).map (·.2),
      (v.backends.filter (·.1 == c)).map fun x => (x.2.1, x.2.2)⟩
-  else ⟨false, [], [], [], [], []⟩
+  | none => ⟨false, 0, [], [], [], [], []⟩
 
 /-- the proxy-side effect and results of one command: new worker state (view
     untouched) and the `Env` the handlers see -/
@@ -554,12 +565,17 @@ def proxyStep (s : WState) (op : Op) : WState × Env :=
     | _ => (s, envOf ok false true unsupported true none false)
   | .queryCerts fingerprint found => (s, envOf found fingerprint true allOk true none false)
   | .queryCluster _ => (s, envOf true false true unsupported true none false)
-  | .addCluster _ hcValid tplValid =>
+  | .addCluster c hcValid tplValid knobs =>
     -- `add_cluster_answers` runs once per listener of the HTTP / HTTPS proxy
     let h := if !tplValid && s.listeners.any (fun l => l.ty == .http) then Status.failure else .ok
     let hs := if !tplValid && s.listeners.any (fun l => l.ty == .https) then Status.failure else .ok
-    (s, envOf true false hcValid ⟨h, hs, .ok, .ok⟩ true none false)
-  | .removeCluster _ => (s, envOf true false true allOk true none false)
+    -- `self.clusters.insert(..)` (an upsert) only when the templates compiled
+    let s' := if hcValid && h == .ok then
+                { s with httpClusters := (c, knobs) :: s.httpClusters.filter (·.1 ≠ c) }
+              else s
+    (s', envOf true false hcValid ⟨h, hs, .ok, .ok⟩ true none false)
+  | .removeCluster c =>
+    ({ s with httpClusters := s.httpClusters.filter (·.1 ≠ c) }, envOf true false true allOk true none false)
   | .addBackend .. | .removeBackend .. | .removeHealthCheck _ =>
     (s, envOf true false true unsupported true none false)
   | .setHealthCheck _ valid => (s, envOf true false valid unsupported true none false)
